@@ -127,7 +127,7 @@ def discharge1(axioms, obl, seed=0, want_model=True, cross=False, quick_only=Fal
         uses_defs = s.num_unfolded > 0
         r = s.check()
         res['fuel'] = fuel
-        if r != z3.unsat and fuel == FUELS[0] and not quick_only and len(obl.pc) > 12:
+        if r != z3.unsat and fuel == FUELS[0] and not quick_only:
             # relevance pass: many obligations need none of the quantified hypotheses
             # (definitions of ghost predicates, rely conditions); fewer hypotheses is sound
             slim = [f for f in obl.pc if not _has_quant(f)]
